@@ -53,7 +53,7 @@ func (tenants) Name() string    { return "tenants" }
 func (tenants) Props() []string { return []string{"C16"} }
 func (tenants) Runs(tier string) int64 {
 	if tier == "thorough" {
-		return 40000
+		return 50000
 	}
 	return 700
 }
